@@ -37,9 +37,9 @@ CTXS = prog.CLS_NAMES
 MARK = "mk0"
 
 POSITIONS = ["select_bare", "select_vw", "where_eq", "in_list", "between", "like", "having", "join_on", "insert_row", "replace_row", "set_value",
-             "fn_arg", "case_when", "case_then", "case_else", "tuple_elem", "array_elem", "json_term", "column_default", "do_update", "upsert_where"]
+             "fn_arg", "case_when", "case_then", "case_else", "tuple_elem", "array_elem", "json_term", "column_default", "do_update", "upsert_where", "load_file"]
 FAMILY = {"select_bare": "wrapper_cls", "set_value": "wrapper_cls", "select_vw": "explicit_vw",
-          "json_term": "json_term", "column_default": "column_default"}
+          "json_term": "json_term", "column_default": "column_default", "load_file": "load_file"}
 
 T = ["src", "T"]
 SRC = {"T": ["tbl", "t", None, None], "U": ["tbl", "u", None, None]}
@@ -87,6 +87,8 @@ def template(pos, H):
         return base + [["select", [["json_h", H]]]]
     if pos == "column_default":
         return [["create_table", [["py", "nt"]]], ["columns", [["column_h", H]]]]
+    if pos == "load_file":
+        return [["load", [H]], ["into", [["py", "t"]]]]  # MySQL LOAD DATA LOCAL INFILE '<path>'
     if pos == "do_update":
         return [["into", [T]], ["insert", [["raw", 1], ["raw", 2]]], ["on_conflict", [["py", "id"]]], ["do_update", [["py", "a"], H]]]
     if pos == "upsert_where":
@@ -191,8 +193,10 @@ def kind_of(v):
     raise HarnessError(type(v))
 
 
-def applicable(pos, v):
+def applicable(pos, v, cls=None):
     k = kind_of(v)
+    if pos == "load_file":
+        return k == "str" and cls == "mysql" and v != ""  # only the MySQL class has the LOAD DATA builder; its file name is a non-empty str (without one the builder is incomplete)
     if pos == "select_bare" and k == "str":
         return False  # a bare str given to select() is a column name, not a value
     if pos == "like" and k != "str":
@@ -381,7 +385,7 @@ def sig_of(cls, pos, v, kind):
 
 def check_case(case):
     v = to_py(case["value"])
-    if not applicable(case["pos"], v):
+    if not applicable(case["pos"], v, case["cls"]):
         return []
     return [(sig_of(case["cls"], case["pos"], v, k), d) for k, d in check_value(case["cls"], case["pos"], case["value"]) if k != "__not_rendered__"]
 
@@ -431,7 +435,12 @@ def run_shard(shard):
     @given(value_nodes(), st.sampled_from(POSITIONS), st.sampled_from(CTXS))
     def prop(vnode, pos, cls):
         v = to_py(vnode)
-        if not applicable(pos, v):
+        if pos == "load_file":
+            cls = "mysql"
+            if not isinstance(v, str):
+                vnode = ["raw", str(v)]
+                v = to_py(vnode)
+        if not applicable(pos, v, cls):
             col.count("not_applicable")
             return
         case = {"cls": cls, "pos": pos, "value": vnode}
